@@ -210,11 +210,17 @@ func (k Keeper) CompareAndSetBridgeValidators(ctx context.Context) (bool, error)
 }
 
 func (k Keeper) SetBridgeValidatorParams(ctx context.Context, bridgeValidatorSet *types.BridgeValidatorSet) error {
-	var totalPower uint64
+	// two thirds of the total power, computed without uint64 overflow
+	totalPower := new(big.Int)
 	for _, validator := range bridgeValidatorSet.BridgeValidatorSet {
-		totalPower += validator.GetPower()
+		totalPower.Add(totalPower, new(big.Int).SetUint64(validator.GetPower()))
 	}
-	powerThreshold := totalPower * 2 / 3
+	threshold := totalPower.Mul(totalPower, big.NewInt(2))
+	threshold.Quo(threshold, big.NewInt(3))
+	if !threshold.IsUint64() {
+		return errors.New("bridge validator power threshold overflows uint64")
+	}
+	powerThreshold := threshold.Uint64()
 
 	sdkCtx := sdk.UnwrapSDKContext(ctx)
 	validatorTimestamp := uint64(sdkCtx.BlockTime().UnixMilli())
